@@ -1,0 +1,109 @@
+//go:build verif
+
+package trie
+
+// Machine-checked contracts for package trie, discharged by /verif's slimvc
+// (weakest-precondition generation over go/ssa + SMT). Comment-only file,
+// compiled only with -tags verif. Functions and loops are addressed by name
+// and source ordinal, never by line.
+
+// ---------------------------------------------------------------------------
+// spec definitions
+
+//@ define nibble(key string, b int) = int(ite(b%8 < 4, key[b/8] >> 4, key[b/8]) & 15)
+//@ define labelidx(key string, l int, w int, b int) = ite(b >= l, 0, ite(w == 8, 1 + int(key[b/8]), 1 + nibble(key, b)))
+//@ define decstep(bs []byte, o int) = 4 * (256*int(bs[o]) + int(bs[o+1]))
+
+// ---------------------------------------------------------------------------
+// representation invariant wf(st): the interface contract between the producers
+// (builder, loaders) and the query code. Every clause is something the query code
+// dereferences or relies on. Notation: I inner nodes, N nodes, B big (257-bit)
+// inner nodes, S short size.
+
+//@ define NTW(st *SlimTrie) = st.inner.NodeTypeBM.Words
+//@ define INW(st *SlimTrie) = st.inner.Inners.Words
+//@ define SBW(st *SlimTrie) = st.inner.ShortBM.Words
+//@ define nI(st *SlimTrie) = ones(st.inner.NodeTypeBM.Words)
+//@ define nN(st *SlimTrie) = ones(st.inner.Inners.Words) + 1
+//@ define nB(st *SlimTrie) = int(st.inner.BigInnerCnt)
+//@ define nS(st *SlimTrie) = int(st.inner.ShortSize)
+//@ define is_short(st *SlimTrie, t int) = bitat(st.inner.ShortBM.Words, t) == 1
+//@ define from_of(st *SlimTrie, t int) = ite(t < nB(st), 257*t, 240*nB(st) + 17*t + (nS(st)-17)*rank1(st.inner.ShortBM.Words, t))
+//@ define size_of(st *SlimTrie, t int) = ite(t < nB(st), 257, ite(is_short(st, t), nS(st), 17))
+
+//@ predicate wf_r64(b *Bitmap) = b != nil && idx_r64(b.Words, b.RankIndex)
+//@ predicate wf_r128(b *Bitmap) = b != nil && idx_r128(b.Words, b.RankIndex)
+//@ predicate wf_sel(b *Bitmap) = b != nil && sel_indexed(b.Words, b.SelectIndex, b.RankIndex)
+
+// positions of a variable-length array: n elements stored in bytes, n+1 position bits
+//@ predicate wf_pos(p *Bitmap, n int, bytes []byte) = wf_sel(p) && ones(p.Words) == n + 1 && select1(p.Words, n) == len(bytes)
+//@     && forall(k, 0, n+1, 0 <= select1(p.Words, k) && select1(p.Words, k) <= len(bytes), at)
+//@     && forall(k, 0, n, select1(p.Words, k) < select1(p.Words, k+1), at)
+
+//@ predicate nonempty(st *SlimTrie) = st.inner != nil && st.inner.NodeTypeBM != nil
+
+//@ predicate wf_core(st *SlimTrie) = st.inner != nil && st.vars != nil && st.inner.NodeTypeBM != nil
+//@     && wf_r64(st.inner.NodeTypeBM) && wf_r128(st.inner.Inners) && wf_r64(st.inner.ShortBM)
+//@     && 0 <= nS(st) && nS(st) <= 10 && len(st.inner.ShortTable) == pow2(nS(st))
+//@     && 0 <= nB(st) && nB(st) <= nI(st) && nI(st) <= 64*len(SBW(st)) && nI(st) <= 33554432
+//@     && 1 <= nN(st) && nN(st) <= 64*len(NTW(st)) && nN(st) <= 1073741824 && len(INW(st)) <= 16777216
+//@     && int(st.vars.BigInnerOffset) == 240*nB(st) && int(st.vars.ShortMinusInner) == nS(st) - 17 && st.vars.ShortMask == mask(nS(st))
+//@     && forall(t, 0, nI(st), 0 <= from_of(st, t) && from_of(st, t) + size_of(st, t) <= 64*len(INW(st)), at)
+//@     && forall(t, 0, nI(st), t < nB(st) ==> !is_short(st, t), at)
+//@     && forall(t, 0, nI(st), is_short(st, t) ==> nS(st) >= 1, at)
+
+//@ predicate wf_iprefix(st *SlimTrie) = st.inner.InnerPrefixes != nil
+//@     && (st.inner.InnerPrefixes.EltCnt > 0 ==> wf_r128(st.inner.InnerPrefixes.PresenceBM)
+//@          && nI(st) <= 64*len(st.inner.InnerPrefixes.PresenceBM.Words)
+//@          && ones(st.inner.InnerPrefixes.PresenceBM.Words) == int(st.inner.InnerPrefixes.EltCnt)
+//@          && (st.inner.InnerPrefixes.PositionBM == nil ==> len(st.inner.InnerPrefixes.Bytes) == 2*int(st.inner.InnerPrefixes.EltCnt))
+//@          && (st.inner.InnerPrefixes.PositionBM != nil ==> wf_pos(st.inner.InnerPrefixes.PositionBM, int(st.inner.InnerPrefixes.EltCnt), st.inner.InnerPrefixes.Bytes)
+//@                && len(st.inner.InnerPrefixes.Bytes) <= 100000000))
+
+// ---------------------------------------------------------------------------
+// query primitives
+
+//@ func (*SlimTrie).getLabelIdxOfKey
+//@   property C01 C03 C10
+//@   opt conv=exact
+//@   requires qr != nil && keyBitIdx >= 0 && int(qr.keyBitLen) == 8*len(qr.key)
+//@   ensures result == labelidx(qr.key, int(qr.keyBitLen), int(qr.wordSize), int(keyBitIdx))
+//@   ensures 0 <= result && result <= 256 && (qr.wordSize != 8 ==> result <= 16)
+
+//@ func encStep
+//@   property C01 C08 C13
+//@   opt conv=exact
+//@   requires 0 <= step && step%4 == 0 && step/4 <= 65535
+//@   ensures len(result) == 2 && decstep(result, 0) == int(step)
+//@   ensures fresh(result)
+
+//@ func decStep
+//@   property C01 C08 C13
+//@   opt conv=exact
+//@   requires len(bs) >= 2
+//@   ensures result == decstep(bs, 0)
+//@   ensures 0 <= result && result <= 262140 && result%4 == 0
+
+//@ func (*SlimTrie).getNode
+//@   property C01 C03 C10
+//@   requires wf_core(st) && wf_iprefix(st) && qr != nil
+//@   requires 0 <= nodeId && int(nodeId) < nN(st)
+//@   requires bitat(NTW(st), nodeId) == 1
+//@   modifies *qr
+//@   split nS(st) 0 10
+//@   use rank1_le_ones(NTW(st), int(nodeId))
+//@   use rank1_range(NTW(st), int(nodeId))
+//@   after Rank64#1 use at(result0)
+//@   after Rank64#1 use rank1_range(SBW(st), int(result0))
+//@   after Rank64#1 use rank1_range(st.inner.InnerPrefixes.PresenceBM.Words, int(result0))
+//@   after Rank64#1 use rank1_le_ones(st.inner.InnerPrefixes.PresenceBM.Words, int(result0))
+//@   after Rank64#1 use bit_test(st.inner.InnerPrefixes.PresenceBM.Words[result0/64], int(result0)%64)
+//@   after Rank64#2 use mul_small(int(st.vars.ShortMinusInner), int(result0))
+//@   at "qr.from = vars.BigInnerOffset" assert int(qr.from) == from_of(st, int(qr.ithInner)) && 0 <= qr.from
+//@   at "qr.to = qr.from + ns.ShortSize" assert int(qr.to) <= 64*len(INW(st))
+//@   at "bm = (w >> uint32(j)) & vars.ShortMask" assert (bm & ^mask(nS(st))) == 0
+//@   at "bm = (w >> uint32(j)) | (w2" assert (bm & ^mask(nS(st))) == 0
+//@   before "qr.bm = uint64(ns.ShortTable[bm])" use u2i_le_mask(bm, nS(st))
+//@   after Rank128#1 use at(result0, result0 + 1)
+//@   ensures qr.isInner == 1 && int(qr.ithInner) == rank1(NTW(st), nodeId)
+//@   ensures int(qr.from) == from_of(st, int(qr.ithInner)) && int(qr.to) == int(qr.from) + size_of(st, int(qr.ithInner))
